@@ -43,6 +43,12 @@ let dump s accounts =
     "txi", of_list (fun r -> JArr [of_n r.i_txid; of_nat r.i_ipos; of_n r.i_prev; of_nat r.i_ppos; of_addr r.i_addr]) s.txi_t;
     "chains", JArr chains;
     "pending", of_int (SL.length s.pend);
+    (* hypothesis of C09_converges / C09_gap_found evaluated on this state *)
+    "in_sync", of_bool (SL.for_all (fun (c, k) ->
+        SL.for_all (fun n ->
+            let a = W (c, nat_of_int n) in
+            let h = get_hist s a in
+            SL.for_all (fun e -> SL.mem e h) (server_hist s.server a)) (range 0 (int_of_nat k))) s.kcs);
     "accounts", of_list (fun cs -> JObj [
         "balance", of_n (balance s cs);
         "total", of_n (total s cs);
